@@ -23,6 +23,7 @@
 #include <BayesFilters/ResamplingWithPrior.h>
 #include <BayesFilters/GPFCorrection.h>
 #include <BayesFilters/KFCorrection.h>
+#include <BayesFilters/UKFCorrection.h>
 #include <BayesFilters/LTIMeasurementModel.h>
 #include <BayesFilters/utils.h>
 #include <atomic>
@@ -279,6 +280,47 @@ static int c13_drawparticles_exogenous() {
     return bad;
 }
 
+static int c19_one_column() {
+    MatrixXd a(1, 1); a << 7.0; VectorXd w(1); w << 1.0;
+    VectorXd m = directional_statistics::directional_mean(a, w);
+    std::printf("C19/C17: directional_mean of the single sample 7.0 = %.16g (argument of the phasor: 0.7168146928204135)\n", m(0));
+    return std::abs(m(0) - 0.7168146928204135) < 1e-12 ? 0 : 1;
+}
+
+static int c18_log_cutoff() {
+    Vector3d r(2.000000001e-4, 0.0, 0.0);
+    MatrixXd q = utils::rotation_vector_to_quaternion(r);
+    MatrixXd back = utils::quaternion_to_rotation_vector(q);
+    double err = (back.col(0) - r).norm();
+    std::printf("C18: log(exp(r)) for |r| = 2.000000001e-4: error %.12g rad (bound 2e-4)\n", err);
+    return err <= 2e-4 ? 0 : 1;
+}
+
+struct ScriptMeas : public AdditiveMeasurementModel {
+    bool fail_pred = false;
+    bool freeze(const Data&) override { return true; }
+    std::pair<bool, Data> measure(const Data&) const override { MatrixXd y = MatrixXd::Zero(2, 1); return std::make_pair(true, Data(y)); }
+    std::pair<bool, Data> predictedMeasure(const Ref<const MatrixXd>& x) const override { if (fail_pred) return std::make_pair(false, Data()); MatrixXd y = x; return std::make_pair(true, Data(y)); }
+    std::pair<bool, Data> innovation(const Data& p, const Data& m) const override { MatrixXd i = -(any::any_cast<MatrixXd>(p).colwise() - any::any_cast<MatrixXd>(m).col(0)); return std::make_pair(true, Data(i)); }
+    std::pair<bool, MatrixXd> getNoiseCovarianceMatrix() const override { return std::make_pair(true, MatrixXd::Identity(2, 2)); }
+    VectorDescription getInputDescription() const override { return VectorDescription(2, 0, 2); }
+    VectorDescription getMeasurementDescription() const override { return VectorDescription(2); }
+};
+
+static int c14_ukf_stale_likelihood() {
+    ScriptMeas* sm = new ScriptMeas;
+    UKFCorrection c(std::unique_ptr<AdditiveMeasurementModel>(sm), 1.0, 2.0, 0.0);
+    GaussianMixture pred(3, 2), corr(3, 2);
+    for (int i = 0; i < 3; ++i) pred.covariance(i) = MatrixXd::Identity(2, 2);
+    c.correct(pred, corr);                     // succeeds: innovations_ is 2x3
+    sm->fail_pred = true;
+    c.correct(pred, corr);                     // fails after predicted_meas_ was overwritten with a default 1x1 mixture
+    bool valid; VectorXd lik;
+    std::tie(valid, lik) = c.getLikelihood();  // Eigen size assertion / out-of-bounds read before the fix
+    std::printf("C14: UKFCorrection::getLikelihood after a failed correction that follows a successful one: valid=%d\n", (int)valid);
+    return valid ? 1 : 0;
+}
+
 int main(int argc, char** argv) {
     std::string w = argc > 1 ? argv[1] : "";
     if (w == "c09_teardown_hang") return c09_teardown_hang();
@@ -294,6 +336,9 @@ int main(int argc, char** argv) {
     if (w == "c12_ut_additive_failure") return c12_ut_additive_failure();
     if (w == "c06_sis_layout") return c06_sis_layout();
     if (w == "c13_drawparticles_exogenous") return c13_drawparticles_exogenous();
+    if (w == "c19_one_column") return c19_one_column();
+    if (w == "c18_log_cutoff") return c18_log_cutoff();
+    if (w == "c14_ukf_stale_likelihood") return c14_ukf_stale_likelihood();
     if (w == "c14_grid_state_rows") return c14_grid_state_rows();
     if (w == "c14_sim_zero_length") return c14_sim_zero_length();
     if (w == "c14_rwp_quaternion") return c14_rwp_quaternion();
